@@ -4,8 +4,11 @@ import SaModel.Props.C01
 /-
 C04: the side conditions of C01 / C03 hold for traced schemas and derived serializations.
 
-Schema side (every enum-free type, every option set): the documented mapping never produces a FixedSizeBinary or a dictionary other than Dictionary(UInt32, Utf8 | LargeUtf8):
+Schema side (EVERY type of the grammar, enums included, every option set): the documented mapping never produces a
+FixedSizeBinary or a dictionary other than Dictionary(UInt32, Utf8 | LargeUtf8); an enum is either that dictionary or a
+dense Union of such children:
   mapping_side : mappingDT o t = (dt, nb, md) → SchemaOK dt ∧ covered dt
+  mappingVariants_side : SchemaOKU (mappingVariants o i vars) ∧ coveredU (mappingVariants o i vars)
 Value side: a derived `Serialize` issues no raw key / value streams and scalars of their own width:
   ser_noRaw, ser_SValOK.
 -/
@@ -23,68 +26,100 @@ theorem side_prim (o : TraceOpts) (p : Prim) : Side (primDT o p) := by
     split <;> split <;> simp [SchemaOK, covered, Build.isIntDT, isStrDT]
   | _ => simp [Side, primDT, SchemaOK, covered]
 
+theorem side_strDT (o : TraceOpts) : Side (.dictionary .uint32 (strDT o)) := by
+  simp only [Side, strDT]
+  split <;> simp [SchemaOK, covered, Build.isIntDT, isStrDT]
+
+def SideU (ufs : UFields) : Prop := SchemaOKU ufs ∧ coveredU ufs = true
+
 mutual
 theorem mapping_side (o : TraceOpts) : ∀ (t : Ty) (dt : DataType) (nb : Bool) (md : Metadata),
-    noEnum t = true → mappingDT o t = (dt, nb, md) → Side dt
-  | .prim p, dt, nb, md, _, hm => by
+    mappingDT o t = (dt, nb, md) → Side dt
+  | .prim p, dt, nb, md, hm => by
     simp only [mappingDT, Prod.mk.injEq] at hm; obtain ⟨rfl, rfl, rfl⟩ := hm; exact side_prim o p
-  | .unit, dt, nb, md, _, hm => by
+  | .unit, dt, nb, md, hm => by
     simp only [mappingDT, Prod.mk.injEq] at hm; obtain ⟨rfl, rfl, rfl⟩ := hm; simp [Side, SchemaOK, covered]
-  | .unitStruct _, dt, nb, md, _, hm => by
+  | .unitStruct _, dt, nb, md, hm => by
     simp only [mappingDT, Prod.mk.injEq] at hm; obtain ⟨rfl, rfl, rfl⟩ := hm; simp [Side, SchemaOK, covered]
-  | .option t, dt, nb, md, hn, hm => by
+  | .option t, dt, nb, md, hm => by
     rcases hm' : mappingDT o t with ⟨dt', nb', md'⟩
     simp only [mappingDT, hm', Prod.mk.injEq] at hm; obtain ⟨rfl, rfl, rfl⟩ := hm
-    exact mapping_side o t _ _ _ (by simpa [noEnum] using hn) hm'
-  | .newtype _ t, dt, nb, md, hn, hm => by
+    exact mapping_side o t _ _ _ hm'
+  | .newtype _ t, dt, nb, md, hm => by
     simp only [mappingDT] at hm
-    exact mapping_side o t _ _ _ (by simpa [noEnum] using hn) hm
-  | .vec t, dt, nb, md, hn, hm => by
+    exact mapping_side o t _ _ _ hm
+  | .vec t, dt, nb, md, hm => by
     rcases hm' : mappingDT o t with ⟨dt', nb', md'⟩
     simp only [mappingDT, hm', Prod.mk.injEq] at hm; obtain ⟨rfl, rfl, rfl⟩ := hm
-    have ih := mapping_side o t _ _ _ (by simpa [noEnum] using hn) hm'
+    have ih := mapping_side o t _ _ _ hm'
     unfold Side at ih ⊢
     split <;> simpa [SchemaOK, SchemaOKF, covered, coveredF] using ih
-  | .tuple ts, dt, nb, md, hn, hm => by
+  | .tuple ts, dt, nb, md, hm => by
     simp only [mappingDT, Prod.mk.injEq] at hm; obtain ⟨rfl, rfl, rfl⟩ := hm
-    have ih := mappingPos_side o ts 0 (by simpa [noEnum] using hn)
+    have ih := mappingPos_side o ts 0
     unfold SideFs at ih; simpa [Side, SchemaOK, covered] using ih
-  | .tupleStruct _ ts, dt, nb, md, hn, hm => by
+  | .tupleStruct _ ts, dt, nb, md, hm => by
     simp only [mappingDT, Prod.mk.injEq] at hm; obtain ⟨rfl, rfl, rfl⟩ := hm
-    have ih := mappingPos_side o ts 0 (by simpa [noEnum] using hn)
+    have ih := mappingPos_side o ts 0
     unfold SideFs at ih; simpa [Side, SchemaOK, covered] using ih
-  | .struct _ fs, dt, nb, md, hn, hm => by
+  | .struct _ fs, dt, nb, md, hm => by
     simp only [mappingDT, Prod.mk.injEq] at hm; obtain ⟨rfl, rfl, rfl⟩ := hm
-    have ih := mappingFields_side o fs (by simpa [noEnum] using hn)
+    have ih := mappingFields_side o fs
     unfold SideFs at ih; simpa [Side, SchemaOK, covered] using ih
-  | .map k v, dt, nb, md, hn, hm => by
+  | .map k v, dt, nb, md, hm => by
     rcases hk : mappingDT o k with ⟨kdt, knb, kmd⟩
     rcases hv : mappingDT o v with ⟨vdt, vnb, vmd⟩
     simp only [mappingDT, hk, hv, Prod.mk.injEq] at hm; obtain ⟨rfl, rfl, rfl⟩ := hm
-    simp only [noEnum, Bool.and_eq_true] at hn
-    have ihk := mapping_side o k _ _ _ hn.1 hk
-    have ihv := mapping_side o v _ _ _ hn.2 hv
+    have ihk := mapping_side o k _ _ _ hk
+    have ihv := mapping_side o v _ _ _ hv
     unfold Side at ihk ihv ⊢
     simp [SchemaOK, SchemaOKF, SchemaOKFs, covered, coveredF, coveredFs, ihk, ihv]
-  | .enum _ _, _, _, _, hn, _ => by simp [noEnum] at hn
-theorem mappingPos_side (o : TraceOpts) : ∀ (ts : Tys) (i : Nat), noEnumTys ts = true → SideFs (mappingPos o i ts)
-  | .nil, _, _ => by simp [SideFs, mappingPos, SchemaOKFs, coveredFs]
-  | .cons t r, i, hn => by
+  | .enum _ vars, dt, nb, md, hm => by
+    simp only [mappingDT] at hm
+    split at hm
+    · simp only [Prod.mk.injEq] at hm; obtain ⟨rfl, rfl, rfl⟩ := hm; exact side_strDT o
+    · simp only [Prod.mk.injEq] at hm; obtain ⟨rfl, rfl, rfl⟩ := hm
+      have ih := mappingVariants_side o vars 0
+      unfold SideU at ih; simpa [Side, SchemaOK, covered] using ih
+theorem mappingPos_side (o : TraceOpts) : ∀ (ts : Tys) (i : Nat), SideFs (mappingPos o i ts)
+  | .nil, _ => by simp [SideFs, mappingPos, SchemaOKFs, coveredFs]
+  | .cons t r, i => by
     rcases hm : mappingDT o t with ⟨dt, nb, md⟩
-    simp only [noEnumTys, Bool.and_eq_true] at hn
-    have ih1 := mapping_side o t _ _ _ hn.1 hm
-    have ih2 := mappingPos_side o r (i + 1) hn.2
+    have ih1 := mapping_side o t _ _ _ hm
+    have ih2 := mappingPos_side o r (i + 1)
     unfold Side at ih1; unfold SideFs at ih2 ⊢
     simp [mappingPos, hm, SchemaOKFs, SchemaOKF, coveredFs, coveredF, ih1, ih2]
-theorem mappingFields_side (o : TraceOpts) : ∀ (fs : TFields), noEnumFields fs = true → SideFs (mappingFields o fs)
-  | .nil, _ => by simp [SideFs, mappingFields, SchemaOKFs, coveredFs]
-  | .cons n s t r, hn => by
+theorem mappingFields_side (o : TraceOpts) : ∀ (fs : TFields), SideFs (mappingFields o fs)
+  | .nil => by simp [SideFs, mappingFields, SchemaOKFs, coveredFs]
+  | .cons n s t r => by
     rcases hm : mappingDT o t with ⟨dt, nb, md⟩
-    simp only [noEnumFields, Bool.and_eq_true] at hn
-    have ih1 := mapping_side o t _ _ _ hn.1 hm
-    have ih2 := mappingFields_side o r hn.2
+    have ih1 := mapping_side o t _ _ _ hm
+    have ih2 := mappingFields_side o r
     unfold Side at ih1; unfold SideFs at ih2 ⊢
     simp [mappingFields, hm, SchemaOKFs, SchemaOKF, coveredFs, coveredF, ih1, ih2]
+/-- the children of the dense Union an enum is traced to (type ids from `i`) -/
+theorem mappingVariants_side (o : TraceOpts) : ∀ (vars : Variants) (i : Nat), SideU (mappingVariants o i vars)
+  | .nil, _ => by simp [SideU, mappingVariants, SchemaOKU, coveredU]
+  | .cons vn .unit r, i => by
+    have ih2 := mappingVariants_side o r (i + 1)
+    unfold SideU at ih2 ⊢
+    simp [mappingVariants, SchemaOKU, SchemaOKF, SchemaOK, coveredU, coveredF, covered, ih2]
+  | .cons vn (.newtype t) r, i => by
+    rcases hm : mappingDT o t with ⟨dt, nb, md⟩
+    have ih1 := mapping_side o t _ _ _ hm
+    have ih2 := mappingVariants_side o r (i + 1)
+    unfold Side at ih1; unfold SideU at ih2 ⊢
+    simp [mappingVariants, hm, SchemaOKU, SchemaOKF, coveredU, coveredF, ih1, ih2]
+  | .cons vn (.tuple ts) r, i => by
+    have ih1 := mappingPos_side o ts 0
+    have ih2 := mappingVariants_side o r (i + 1)
+    unfold SideFs at ih1; unfold SideU at ih2 ⊢
+    simp [mappingVariants, SchemaOKU, SchemaOKF, SchemaOK, coveredU, coveredF, covered, ih1, ih2]
+  | .cons vn (.struct fs) r, i => by
+    have ih1 := mappingFields_side o fs
+    have ih2 := mappingVariants_side o r (i + 1)
+    unfold SideFs at ih1; unfold SideU at ih2 ⊢
+    simp [mappingVariants, SchemaOKU, SchemaOKF, SchemaOK, coveredU, coveredF, covered, ih1, ih2]
 end
 
 /-- every field of a schema satisfies the two schema side conditions of C01 / C03 -/
